@@ -345,9 +345,13 @@ func runC04Nil(c *Ctx, wl *walkLayers) {
 				continue
 			}
 			invalid := false
-			for k, v := range t.PC {
-				if strings.HasPrefix(k, "kind(") && strings.Contains(k, "∈{valid}") && v == 0 {
-					invalid = true
+			for k := range t.PC {
+				if strings.HasPrefix(k, "kind(") && strings.Contains(k, ")∈{") {
+					key := k[5:strings.Index(k, ")∈{")]
+					tt := t
+					if traceMask(&tt, key) == 1 { // only Invalid remains possible
+						invalid = true
+					}
 				}
 			}
 			if !invalid {
